@@ -11,6 +11,8 @@
 //	                                                  WarmUpPeriodSec p, WarmUpColdFactor c; control behaviour cb
 //	                                                  (0 / absent: Reject, 1: Throttling with MaxQueueingTimeMs q)
 //	new   {tr, kind:"mem", low, high, lw, hw [, cb, q]}    one MemoryAdaptive rule on a fresh resource (same cb, q)
+//	reload {same fields as new, via}                  the rule of the resource is replaced now: flow.LoadRules (via absent /
+//	                                                  "set") or flow.LoadRulesOfResource (via "res"); same kind, same resource
 //	tick  {d}                                         clock += d
 //	at    {t}                                         clock = start + t (ms) unless it is already past that
 //	req   {b}                                         one api.Entry(WithBatchCount(b)); an admitted entry is exited at once
@@ -98,6 +100,37 @@ func main() {
 		}
 		return ok, w, t
 	}
+	// the rule described by a new / reload op (kind of the scenario, resource of the scenario) and its trace record
+	build := func(s hx.M) (*flow.Rule, hx.M) {
+		cb, q := int64(0), int64(0)
+		if _, ok := s["cb"]; ok {
+			cb = hx.Int(s, "cb")
+		}
+		if _, ok := s["q"]; ok {
+			q = hx.Int(s, "q")
+		}
+		behavior := flow.Reject
+		if cb == 1 {
+			behavior = flow.Throttling
+		} else if cb != 0 || q != 0 {
+			hx.Fatal("trace %d: cb must be 0 (reject) or 1 (throttling, with q)", r.tr)
+		}
+		r.thr = cb == 1
+		switch r.kind {
+		case "warmup":
+			tn, td, p, c := hx.Int(s, "tn"), hx.Int(s, "td"), hx.Int(s, "p"), hx.Int(s, "c")
+			return &flow.Rule{Resource: r.name, TokenCalculateStrategy: flow.WarmUp, ControlBehavior: behavior, MaxQueueingTimeMs: uint32(q),
+					Threshold: float64(tn) / float64(td), WarmUpPeriodSec: uint32(p), WarmUpColdFactor: uint32(c)},
+				hx.M{"tn": tn, "td": td, "p": p, "c": c, "cb": cb, "q": q}
+		case "mem":
+			low, high, lw, hw := hx.Int(s, "low"), hx.Int(s, "high"), hx.Int(s, "lw"), hx.Int(s, "hw")
+			return &flow.Rule{Resource: r.name, TokenCalculateStrategy: flow.MemoryAdaptive, ControlBehavior: behavior, MaxQueueingTimeMs: uint32(q),
+					LowMemUsageThreshold: low, HighMemUsageThreshold: high, MemLowWaterMarkBytes: lw, MemHighWaterMarkBytes: hw},
+				hx.M{"low": low, "high": high, "lw": lw, "hw": hw, "cb": cb, "q": q}
+		}
+		hx.Fatal("unknown kind %q", r.kind)
+		return nil, nil
+	}
 	emitPaced := func(ok bool, w int64, t int64) {
 		tr.Emit(hx.M{"op": "preq", "t": t, "ok": ok, "w": (w + 999) / 1000})
 		if w > 0 {
@@ -132,35 +165,11 @@ func main() {
 			t0 := hx.Int(s, "t")
 			clk.SetMs(epoch + t0)
 			system_metric.SetSystemMemoryUsage(system_metric.NotRetrievedMemoryValue)
-			var rule *flow.Rule
-			var rec hx.M
-			cb, q := int64(0), int64(0)
-			if _, ok := s["cb"]; ok {
-				cb = hx.Int(s, "cb")
-			}
-			if _, ok := s["q"]; ok {
-				q = hx.Int(s, "q")
-			}
-			behavior := flow.Reject
-			if cb == 1 {
-				behavior = flow.Throttling
-			} else if cb != 0 || q != 0 {
-				hx.Fatal("trace %d: cb must be 0 (reject) or 1 (throttling, with q)", r.tr)
-			}
-			r.kind, r.thr = hx.Str(s, "kind"), cb == 1
-			switch r.kind {
-			case "warmup":
-				tn, td, p, c := hx.Int(s, "tn"), hx.Int(s, "td"), hx.Int(s, "p"), hx.Int(s, "c")
-				rule = &flow.Rule{Resource: r.name, TokenCalculateStrategy: flow.WarmUp, ControlBehavior: behavior, MaxQueueingTimeMs: uint32(q),
-					Threshold: float64(tn) / float64(td), WarmUpPeriodSec: uint32(p), WarmUpColdFactor: uint32(c)}
-				rec = hx.M{"op": "new", "tr": r.tr, "t": t0, "tn": tn, "td": td, "p": p, "c": c, "cb": cb, "q": q}
-			case "mem":
-				low, high, lw, hw := hx.Int(s, "low"), hx.Int(s, "high"), hx.Int(s, "lw"), hx.Int(s, "hw")
-				rule = &flow.Rule{Resource: r.name, TokenCalculateStrategy: flow.MemoryAdaptive, ControlBehavior: behavior, MaxQueueingTimeMs: uint32(q),
-					LowMemUsageThreshold: low, HighMemUsageThreshold: high, MemLowWaterMarkBytes: lw, MemHighWaterMarkBytes: hw}
-				rec = hx.M{"op": "new", "tr": r.tr, "low": low, "high": high, "lw": lw, "hw": hw, "cb": cb, "q": q}
-			default:
-				hx.Fatal("unknown kind %q", hx.Str(s, "kind"))
+			r.kind = hx.Str(s, "kind")
+			rule, rec := build(s)
+			rec["op"], rec["tr"] = "new", r.tr
+			if r.kind == "warmup" {
+				rec["t"] = t0
 			}
 			if _, err := flow.LoadRules([]*flow.Rule{rule}); err != nil {
 				hx.Fatal("LoadRules: %v", err)
@@ -168,6 +177,23 @@ func main() {
 			if got := len(flow.GetRulesOfResource(r.name)); got != 1 {
 				hx.Fatal("trace %d: the rule is not in force (invalid rule in the scenario?)", r.tr)
 			}
+			tr.Emit(rec)
+		case "reload":
+			// the rule of the resource is replaced in the middle of the history (whole set or this resource only)
+			rule, rec := build(s)
+			var err error
+			if hx.Str(s, "via") == "res" {
+				_, err = flow.LoadRulesOfResource(r.name, []*flow.Rule{rule})
+			} else {
+				_, err = flow.LoadRules([]*flow.Rule{rule})
+			}
+			if err != nil {
+				hx.Fatal("reload: %v", err)
+			}
+			if got := len(flow.GetRulesOfResource(r.name)); got != 1 {
+				hx.Fatal("trace %d: the reloaded rule is not in force (invalid rule in the scenario?)", r.tr)
+			}
+			rec["op"], rec["t"] = "reload", clk.NowMs()-r.epoch
 			tr.Emit(rec)
 		case "tick":
 			clk.AdvanceMs(hx.Int(s, "d"))
